@@ -1,7 +1,125 @@
 package main
 
-import "bufio"
+import (
+	"bufio"
+	"encoding/json"
+	"fmt"
+	"reflect"
+	"sync/atomic"
 
+	"google.golang.org/protobuf/proto"
+
+	"github.com/bufbuild/protocompile/experimental/report"
+	"github.com/bufbuild/protocompile/experimental/source"
+)
+
+type opStep struct {
+	Op    string          `json:"op"`
+	Arg   json.RawMessage `json:"arg"`
+	After []aDiag         `json:"after"`
+}
+type opsCase struct {
+	Kind  string   `json:"kind"`
+	Files []aFile  `json:"files"`
+	Ops   []opStep `json:"ops"`
+}
+
+// filesOf collects the file objects the report's annotations point into.
+func filesOf(r *report.Report) map[string]*source.File {
+	out := map[string]*source.File{}
+	for i := range r.Diagnostics {
+		sn := rfield(reflect.ValueOf(&r.Diagnostics[i]).Elem(), "snippets")
+		for k := 0; k < sn.Len(); k++ {
+			span := rfield(sn.Index(k), "Span").Interface().(source.Span)
+			if span.File != nil {
+				out[span.File.Path()] = span.File
+			}
+		}
+	}
+	return out
+}
+
+// runOps replays MCReportOps behaviours: each operation is performed on the real report and the
+// projection is compared with the specification's state after EVERY step.
 func runOps(in *bufio.Scanner, sk *sink) {
-	harnessFail("ops mode not implemented yet")
+	var n, steps atomic.Int64
+	pump(in, func(raw []byte) {
+		if kindOf(raw) != "ops" {
+			harnessFail("ops: unexpected case kind")
+		}
+		var c opsCase
+		if err := json.Unmarshal(raw, &c); err != nil {
+			harnessFail("bad ops case: " + err.Error())
+		}
+		n.Add(1)
+		defer func() {
+			if r := recover(); r != nil {
+				sk.report("ops:panic", fmt.Sprint(r), raw)
+			}
+		}()
+		fs := newFileSet(c.Files)
+		r := &report.Report{}
+		for i, st := range c.Ops {
+			steps.Add(1)
+			cls := ""
+			switch st.Op {
+			case "push":
+				var ds []aDiag
+				if err := json.Unmarshal(st.Arg, &ds); err != nil || len(ds) != 1 {
+					harnessFail("ops: bad push argument")
+				}
+				pushDiag(r, ds[0], fs)
+				r.Stage = 0
+				cls = "ops:build"
+			case "permute":
+				var p []int
+				if err := json.Unmarshal(st.Arg, &p); err != nil || len(p) != len(r.Diagnostics) {
+					harnessFail("ops: bad permutation")
+				}
+				nd := make([]report.Diagnostic, len(p))
+				for k, src := range p {
+					nd[k] = r.Diagnostics[src-1]
+				}
+				r.Diagnostics = nd
+				cls = "ops:build"
+			case "canonicalize", "canonicalize-keep":
+				r.KeepDuplicates = st.Op == "canonicalize-keep"
+				r.Canonicalize()
+				cls = "ops:canon"
+			case "roundtrip":
+				b, err := proto.Marshal(r.ToProto())
+				if err != nil {
+					sk.report("ops:roundtrip:marshal", err.Error(), raw)
+					return
+				}
+				r2 := &report.Report{}
+				if err := r2.AppendFromProto(func(m proto.Message) error { return proto.Unmarshal(b, m) }); err != nil {
+					sk.report("ops:roundtrip:rejected", fmt.Sprintf("step %d: %v", i, err), raw)
+					return
+				}
+				r = r2
+				// Spans compare by file identity: later pushes must point into the decoded
+				// files (the specification identifies a file with its path).
+				for path, f := range filesOf(r) {
+					fs[path] = f
+				}
+				cls = "ops:roundtrip"
+			default:
+				harnessFail("ops: unknown operation " + st.Op)
+			}
+			want := make([]cDiag, len(st.After))
+			for k, d := range st.After {
+				want[k] = concreteDiag(d, fs)
+			}
+			// decoded files are new objects: compare by content (projection does)
+			if f := diffReport(projectReport(r), want, true); f != "" {
+				if cls == "ops:build" {
+					harnessFail(fmt.Sprintf("ops: step %d (%s) of the harness itself went wrong: %s", i, st.Op, f))
+				}
+				sk.report(cls+":"+firstWord(f), fmt.Sprintf("after step %d (%s): %s", i, st.Op, f), raw)
+				return
+			}
+		}
+	})
+	stats(map[string]any{"cases": n.Load(), "steps": steps.Load(), "classes": sk.perClass})
 }
